@@ -811,8 +811,14 @@ void tickit_window_flush(TickitWindow *win)
 
     tickit_rectset_clear(root->damage);
 
+    TickitRect bounds = { .top = 0, .left = 0, .lines = root_window->rect.lines, .cols = root_window->rect.cols };
+
     for(int i = 0; i < damage_count; i++) {
       TickitRect *rect = &rects[i];
+      /* The root may have shrunk since this damage was recorded */
+      if(!tickit_rect_intersect(rect, rect, &bounds))
+        continue;
+
       tickit_renderbuffer_save(rb);
       tickit_renderbuffer_clip(rb, rect);
       _do_expose(root_window, rect, rb);
